@@ -125,13 +125,16 @@ class CollectFootnotes(Transform):
             transition.source = self.document.source
             self.document += transition
 
-        def _sort_key(footnote: tuple[str, nodes.footnote]) -> int | str:
+        def _sort_key(
+            footnote: tuple[str, nodes.footnote],
+        ) -> tuple[int, int | str]:
             label, _ = footnote
             try:
                 # ensure e.g 10 comes after 2
-                return int(label)
+                return 0, int(label)
             except ValueError:
-                return label
+                # non-integer labels (e.g. symbols) come after the integer ones
+                return 1, label
 
         for _, footnote in sorted(footnotes, key=_sort_key):
             footnote.parent.remove(footnote)
